@@ -228,3 +228,14 @@ reg("C10", "exploration",
     require={"any": {"archives_minimal": 800, "archives_with_duplicates": 400, "archives_with_runs": 200, "history.0": 50,
                      "history.1": 50, "history.2": 50, "history.3": 50}},
     assumptions=["no two generated contents collide under the library's 64-bit content hash"])
+
+reg("C06", "exploration",
+    "cases = (valid tile-entry list, codec, initial leaf size, sync/async) through util::write_directories(_async) on a recording "
+    "stream started at position 0/127/1000: lists size-steered so that the None encoding has exactly 16256/16257/16258/16300/16383/"
+    "16384/16385 bytes, codec lists bracketed around the first spilling prefix (+-2 entries), and random lists of 0..10^4 (quick) / "
+    "10^5 (thorough) entries; initial leaf sizes {default,1,2,7,33,4096,10^6}. Distinct by fingerprint of (list, codec, leaf size); "
+    "non-trivial = >= 2 entries. Oracle: root = stream[start, position) <= 16257 bytes and decodes (exact consumption) as one "
+    "directory; spill => only pointers, each [offset,offset+length) decodes as exactly one leaf whose first id is the pointer's id, "
+    "concatenated leaves = input; no spill => root = input and = single-directory encoding; spill <=> single-directory encoding > 16257.",
+    require={"any": {"writes_judged": 400, "spilled": 100, "fits_in_root": 100, "steered.16257": 1, "steered.16258": 1,
+                     "steered.16384": 1, "bracketed.gzip": 1, "bracketed.brotli": 1, "bracketed.zstd": 1, "async_writes": 100}})
